@@ -37,3 +37,42 @@ VARIANTS += [
     ("C02-fixed-convert-swap", "C02", TZ, "                dt.minute,\n                dt.second,\n", "                dt.second,\n                dt.minute,\n", "RECON.slot"),
     ("C02-refactor-equivalent", "C02", TZ, "if offset_after > offset_before:", "if offset_before < offset_after:", None),
 ]
+
+HELP = "src/pendulum/helpers.py"
+VARIANTS += [
+    ("C03-clean", "C03", None, "", "", None),
+    ("C03-days-not-variable", "C03", DT, "units_of_variable_length = any([years, months, weeks, days])", "units_of_variable_length = any([years, months, weeks])", "ADD.classify"),
+    ("C03-plus-offset", "C03", DT, "current_dt = current_dt - offset", "current_dt = current_dt + offset", "ADD.fixed-exit"),
+    ("C03-utc-tagged-selftz", "C03", DT, "            dt.microsecond,\n            tzinfo=UTC,\n        )", "            dt.microsecond,\n            tzinfo=self.tz,\n        )", "ADD.fixed-exit"),
+    ("C03-subtract-not-negated", "C03", DT, "            minutes=-minutes,\n            seconds=-seconds,", "            minutes=-minutes,\n            seconds=seconds,", "NEGSYM"),
+    ("C03-divmod-100000", "C03", HELP, "div, mod = divmod(microseconds * s, 1000000)", "div, mod = divmod(microseconds * s, 100000)", "UNITS.carry"),
+    ("C03-carry-wrong-target", "C03", HELP, "        minutes = mod * s\n        hours += div * s", "        minutes = mod * s\n        days += div * s", "UNITS.carry"),
+    ("C03-sub-timedelta-days", "C03", DT, "        return self.subtract(seconds=delta.total_seconds())", "        return self.subtract(seconds=delta.seconds)", "TDARM.plain"),
+    ("C03-add-duration-drop-us", "C03", DT, "            seconds=seconds,\n            microseconds=microseconds,\n        )\n\n        if units_of_variable_length or self.tz is None:", "            seconds=seconds,\n        )\n\n        if units_of_variable_length or self.tz is None:", "ADD.forward"),
+    ("C03-final-fold-drop", "C03", DT, "            tzinfo=self.tz,\n            fold=dt.fold,\n        )\n\n    def subtract", "            tzinfo=self.tz,\n        )\n\n    def subtract", "RECON.state"),
+    ("C03-guard-and", "C03", DT, "if units_of_variable_length or self.tz is None:", "if units_of_variable_length and self.tz is None:", "ADD."),
+    ("C03-hours-threshold", "C03", HELP, "    if abs(hours) > 23:", "    if abs(hours) > 24:", "UNITS.carry"),
+    ("C03-timedelta-swap", "C03", HELP, "        minutes=minutes,\n        seconds=seconds,\n        microseconds=microseconds,\n    )", "        minutes=seconds,\n        seconds=minutes,\n        microseconds=microseconds,\n    )", "UNITS.carry"),
+    ("C03-sub-route", "C03", DT, "            return self._subtract_timedelta(other)", "            return self._add_timedelta_(other)", "DUNDER.route"),
+]
+
+DATE = "src/pendulum/date.py"
+DUR = "src/pendulum/duration.py"
+VARIANTS += [
+    ("C04-clean", "C04", None, "", "", None),
+    ("C04-clamp-before-overflow", "C04", HELP, [("    day = min(DAYS_PER_MONTHS[int(is_leap(year))][month], dt.day)\n", ""), ("    year = dt.year + years\n    month = dt.month\n", "    year = dt.year + years\n    month = dt.month\n    day = min(DAYS_PER_MONTHS[int(is_leap(year))][month], dt.day)\n")], None, "ORDER.clamp"),
+    ("C04-clamp-old-year", "C04", HELP, "day = min(DAYS_PER_MONTHS[int(is_leap(year))][month], dt.day)", "day = min(DAYS_PER_MONTHS[int(is_leap(dt.year))][month], dt.day)", "ORDER.clamp"),
+    ("C04-wrap-year-missing", "C04", HELP, "        elif month < 1:\n            year -= 1\n            month += 12", "        elif month < 1:\n            month += 12", "ORDER.clamp"),
+    ("C04-weeks-6", "C04", HELP, "days += weeks * 7", "days += weeks * 6", "UNITS.carry"),
+    ("C04-date-sub-noneg", "C04", DATE, "return self.add(years=-years, months=-months, weeks=-weeks, days=-days)", "return self.add(years=-years, months=-months, weeks=weeks, days=-days)", "NEGSYM"),
+    ("C04-sub-duration-elapsed", "C04", DT, "            return self.subtract(**delta._signature)  # type: ignore[attr-defined]", "            return self.subtract(years=delta.years, months=delta.months, seconds=delta._total)", "SIBLING.arms"),
+    ("C04-date-sub-drop-weeks", "C04", DATE, "            return self.subtract(\n                years=delta.years,\n                months=delta.months,\n                weeks=delta.weeks,\n", "            return self.subtract(\n                years=delta.years,\n                months=delta.months,\n", "SIBLING.arms"),
+    ("C04-interval-arm-days", "C04", DT, "                days=delta.remaining_days,\n                hours=delta.hours,\n                minutes=delta.minutes,\n                seconds=delta.remaining_seconds,\n                microseconds=delta.microseconds,\n            )\n        elif isinstance(delta, pendulum.Duration):\n            return self.add(", "                days=delta.days,\n                hours=delta.hours,\n                minutes=delta.minutes,\n                seconds=delta.remaining_seconds,\n                microseconds=delta.microseconds,\n            )\n        elif isinstance(delta, pendulum.Duration):\n            return self.add(", "SIBLING."),
+    ("C04-neg-drop-weeks", "C04", DUR, "            weeks=-self._weeks,\n", "", "NEG.components"),
+    ("C04-neg-months-sign", "C04", DUR, "            months=-self._months,\n            weeks=-self._weeks,", "            months=self._months,\n            weeks=-self._weeks,", "NEG.components"),
+    ("C04-signature-ms", "C04", DUR, '"microseconds": microseconds + milliseconds * 1000,', '"microseconds": microseconds + milliseconds * 100,', "SIGNATURE"),
+    ("C04-signature-swap", "C04", DUR, '            "hours": hours,\n            "minutes": minutes,\n            "seconds": seconds,\n            "microseconds": microseconds +', '            "hours": minutes,\n            "minutes": hours,\n            "seconds": seconds,\n            "microseconds": microseconds +', "SIGNATURE"),
+    ("C04-absduration-nosig", "C04", DUR, "        self._signature = {  # type: ignore[attr-defined]\n            \"years\": self._years,", "        self._sig = {  # type: ignore[attr-defined]\n            \"years\": self._years,", "INIT-COMPLETE"),
+    ("C04-calendar-tz-drop", "C04", DT, "                dt.microsecond,\n                tz=self.tz,\n            )", "                dt.microsecond,\n            )", "ADD.calendar-exit"),
+    ("C04-replace-before", "C04", HELP, "    dt = dt.replace(year=year, month=month, day=day)\n\n    return dt + timedelta(", "    dt = dt.replace(year=year, month=month, day=dt.day)\n\n    return dt + timedelta(", "ORDER.clamp"),
+]
